@@ -209,7 +209,22 @@ func factsAt(b *ssa.BasicBlock) []Fact {
 			continue
 		}
 		iff, ok := d.Instrs[len(d.Instrs)-1].(*ssa.If)
-		if !ok || len(cur.Preds) != 1 || cur.Preds[0] != d {
+		if !ok {
+			continue
+		}
+		// the edge d→cur carries a fact for cur if every other predecessor of
+		// cur is dominated by cur (a back edge): cur can then only be entered
+		// from outside through that edge.
+		entered := false
+		sole := true
+		for _, p := range cur.Preds {
+			if p == d {
+				entered = true
+			} else if !cur.Dominates(p) {
+				sole = false
+			}
+		}
+		if !entered || !sole {
 			continue
 		}
 		if d.Succs[0] == d.Succs[1] {
